@@ -359,6 +359,66 @@ fn matrix(cfg: WorldCfg, ctx: &mut Ctx) {
             }
         }
     }
+    // (h) a last-resort key package survives the joiner's write and can be used again; an
+    //     ordinary one cannot (shown in (f))
+    {
+        use mls_rs::extension::recommended::LastResortKeyPackageExt;
+        use mls_rs::extension::MlsExtension;
+        let mut w = base.w.clone();
+        ctx.cur_trail = vec![format!("matrix[{}]: last-resort key package used for two groups", cfg.label())];
+        let r = w.run(|w| {
+            let ext: mls_rs::ExtensionList = vec![LastResortKeyPackageExt.into_extension().map_err(|e| MlsError::from(e))?].into();
+            let now = w.now();
+            let kp = w.parties[E].client.generate_key_package_message(ext, Default::default(), now)?;
+            let stored_before: Vec<Vec<u8>> = stores::peek(E as u32, |s| s.kps.keys().cloned().collect());
+            // first group: the base world's group
+            let out = {
+                let mut b = w.gm(A).commit_builder().add_member(kp.clone())?;
+                if let Some(t) = now {
+                    b = b.commit_time(t);
+                }
+                b.build()?
+            };
+            for p in w.members() {
+                if p != A {
+                    w.process(p, &out.commit_message)?;
+                }
+            }
+            w.apply(A)?;
+            let t = tree_arg(w, A);
+            w.join(E, &out.welcome_messages[0], t)?;
+            w.gm(E).write_to_storage()?;
+            let still: bool = stores::peek(E as u32, |s| stored_before.iter().all(|k| s.kps.contains_key(k)));
+            // second group, created by an outsider, reuses the same key package
+            let (client2, _, _) = make_client(&w.cfg, 88, "another-creator", None);
+            let mut g2 = client2.create_group_with_id(b"second-group".to_vec(), w.context_ext(None), Default::default(), now)?;
+            let out2 = g2.commit_builder().add_member(kp)?.build()?;
+            g2.apply_pending_commit()?;
+            let tree2 = if w.cfg.tree_ext { None } else { Some(g2.export_tree().into_owned()) };
+            let joined2 = w.parties[E].client.join_group(tree2, &out2.welcome_messages[0], now).map(|_| ());
+            Ok::<_, MlsError>((still, joined2.map_err(|e| err_name(&e))))
+        });
+        ctx.eval();
+        match r {
+            Ok(Ok((still, joined2))) => {
+                if !still {
+                    ctx.violation("last-resort-key-package-deleted", "a key package marked last-resort was deleted when the joiner persisted its group");
+                }
+                match joined2 {
+                    Ok(()) => {
+                        ctx.outcome("matrix:last-resort:reused");
+                        ctx.goal("matrix-last-resort");
+                    }
+                    Err(e) => ctx.violation(format!("last-resort-key-package-not-reusable|{e}"), "a last-resort key package could not be used for a second group after the first join was persisted"),
+                }
+            }
+            Ok(Err(e)) => ctx.outcome(format!("matrix:last-resort:not-constructible:{}", err_name(&e))),
+            Err(_) => {
+                let (loc, m, _) = take_panic();
+                ctx.violation(format!("panic|matrix|last resort|{loc}"), m);
+            }
+        }
+    }
     ctx.extra("states", 1);
     ctx.report.traces += 1;
 }
